@@ -225,15 +225,15 @@ def run_case(case):
 def cases_for(tier, s):
     R = []
     n = 40 if tier == "quick" else 500
-    modes = ["subsets", "derivative", "replace", "zero", "elim_const"]
+    modes = ["subsets", "derivative", "replace", "zero", "elim_const", "rules"]
     for i in range(n):
         cell = CELLS[i % 5]
         opts = {}
         if i % 8 == 5:
             opts = {"scalar_type": ["complex128", "float32"][(i // 8) % 2]}
-        R.append({"recipe": {"b": "packing", "cell": cell, "p": {"seed": [s, 5, i], "ncoef": 3 + (i % 6), "nconst": (i % 4) + (2 if modes[i % 5] == "elim_const" else 0),
-                                                               "arity": 1 if modes[i % 5] == "derivative" else (i // 4) % 3,
-                                                               "use_dS": i % 3 != 0, "mode": modes[i % 5]}},
+        R.append({"recipe": {"b": "packing", "cell": cell, "p": {"seed": [s, 5, i], "ncoef": 3 + (i % 6), "nconst": (i % 4) + (2 if modes[i % 6] == "elim_const" else 0),
+                                                               "arity": 1 if modes[i % 6] == "derivative" else (i // 4) % 3,
+                                                               "use_dS": i % 3 != 0, "mode": modes[i % 6]}},
                   "options": opts, "seed": [s, 500, i]})
     # definedness monitor under valgrind (a few in quick, many in thorough)
     nm = 4 if tier == "quick" else 60
